@@ -125,3 +125,23 @@ ENUMS = {
  'rqsc::ControllerType': {'Capacity': 0, 'Bandwidth': 1},
  'rqsc::ResourceType': {'Cache': 0, 'Memory': 1},
 }
+
+# Values the specification defines that the crate does not (yet) offer: value -> accepted spellings of a variant
+# name (compared lower-case, alphanumerics only).  A variant added to one of these enums is decided against this
+# table; a variant whose name is in neither table cannot be decided and is reported.
+ENUM_EXTRA = {
+ 'aml::OpRegionSpace': {0x0a: ['pcc', 'platformcommchannel', 'platformcommunicationschannel', 'platformcommunicationchannel'],
+                        0x0b: ['prm', 'platformrtmechanism', 'platformruntimemechanism'],
+                        0x7f: ['ffixedhw', 'ffixedhardware', 'functionalfixedhw', 'functionalfixedhardware', 'fixedhardware']},
+ 'aml::FieldAccessType': {},
+ 'aml::FieldLockRule': {},
+ 'aml::FieldUpdateRule': {},
+ 'aml::AddressSpaceCacheable': {},
+}
+
+def extra_value(path, variant):
+    """specified value of a variant the crate did not have when ENUMS was written, or None"""
+    key = ''.join(ch for ch in variant.lower() if ch.isalnum())
+    for val, names in ENUM_EXTRA.get(path, {}).items():
+        if key in names: return val
+    return None
